@@ -576,6 +576,18 @@ ContentBad(a, e, rec) ==
   ELSE IF \E c \in classes : gotClass(c) # [i \in DOMAIN inClass(c) |-> Strip(inClass(c)[i])] THEN "attachment-order"
   ELSE "ok"
 
+\* a local span's record shows something that was attached through the local context while ANOTHER entry of
+\* its scope (or the scope's span itself) was the innermost one: "where subsequent local properties and
+\* events attach" (C10) was not what it had to be
+LocalForeign(a, e, rec) ==
+  /\ e.own
+  /\ LET ents == IF Has(a.ls, e.sc) THEN a.ls[e.sc].ents ELSE IF Has(a.sc, e.sc) THEN a.sc[e.sc].ents ELSE <<>>
+         got == RecAtts(rec) IN
+     \E i \in DOMAIN got, j \in DOMAIN ents :
+        /\ ents[j].par # e.n /\ ents[j].n # e.n
+        /\ \/ ents[j].k = "props" /\ got[i].k = "p" /\ \E q \in DOMAIN ents[j].props : ents[j].props[q][1] = got[i].key
+           \/ ents[j].k = "event" /\ got[i].k = "e" /\ got[i].key = ents[j].n
+
 IdOf(a, n) == IF \E c \in a.claims : c[1] = n THEN (CHOOSE c \in a.claims : c[1] = n)[2]
               ELSE IF \E c \in a.hints : c[1] = n THEN (CHOOSE c \in a.hints : c[1] = n)[2] ELSE None
 
@@ -628,7 +640,8 @@ TakeRecord(a, rec) ==
                             ELSE IF cb \in {"missing-attachment", "duplicate-attachment"} /\ twin THEN "twin" ELSE None)
            \* a copy of a captured set pushed under a parent: the copies are identical (C17)
            a4y == IF cb # "ok" /\ e.own /\ Has(a.ls, e.sc) /\ a.rt[e.r].cid \notin a.cut THEN Viol(a4x, "C17", "copies-differ-in-content", [w |-> cb, rec |-> rec, must |-> e.must]) ELSE a4x
-           a4 == IF cb # "ok" /\ e.own /\ WasOver(a, e.sc) THEN Viol(a4y, "C09", "recorded-span-changed-beyond-the-scope-limit", [w |-> cb, rec |-> rec, must |-> e.must]) ELSE a4y
+           a4z == IF cb = "foreign-attachment" /\ LocalForeign(a, e, rec) THEN Viol(a4y, "C10", "local-attachment-landed-on-another-span", [rec |-> rec, must |-> e.must]) ELSE a4y
+           a4 == IF cb # "ok" /\ e.own /\ WasOver(a, e.sc) THEN Viol(a4z, "C09", "recorded-span-changed-beyond-the-scope-limit", [w |-> cb, rec |-> rec, must |-> e.must]) ELSE a4z
            tb == TimeBad(a, rec)
            a5 == IF tb = "ok" THEN a4
                  ELSE LET v == Viol(a4, "C18", tb, [rec |-> rec, tm |-> a.tm[rec.name]]) IN
